@@ -585,6 +585,10 @@ theorem runWaitFor_start_conserve (pred : Id → Bool) (k : Nat) (s : State) :
     obtain ⟨_, _, _, _, _, ha, _⟩ := id hp
     exact ⟨hp.conserve.1, hp.conserve.2, ha⟩
 
+theorem runCalls_cons (s : State) (c : Call) (cs : List Call) :
+    runCalls s (c :: cs) =
+      ((runCalls (call s c).1 cs).1, (call s c).2 :: (runCalls (call s c).1 cs).2) := rfl
+
 theorem delivered_cons (o : Outcome) (os : List Outcome) :
     delivered (o :: os) = (got? o).toList ++ delivered os := by
   cases o <;> simp [delivered, List.filterMap_cons, got?]
@@ -701,5 +705,70 @@ theorem call_buf_mem (s : State) (c : Call) :
       cases script with
       | nil => simp [pollUnder]
       | cons e rest => cases e <;> simp [pollUnder]
+
+/-! ## returned frames match; cancellation -/
+
+theorem runWaitFor_got_matches (pred : Id → Bool) (k : Nat) (s s' : State) (m : Bytes)
+    (h : runWaitFor pred k .start s = (s', .got m)) : matches_ pred m = true := by
+  rcases runWaitFor_start_cases pred k s with ⟨_, e⟩ | ⟨_, i, hi, hf, e⟩ | ⟨_, _, e⟩
+  · rw [e] at h; simp at h
+  · rw [e] at h
+    obtain ⟨_, hm, _⟩ := findIdx_zero_some.mp hf
+    simp only [Prod.mk.injEq, Outcome.got.injEq] at h
+    rw [← h.2]; exact hm
+  · have hp := runWaitFor_pulling_pulled pred k s
+    rw [← e, h] at hp
+    obtain ⟨_, _, _, _, _, _, h6⟩ := hp
+    exact h6 m rfl
+
+/-- a `wait_for` future dropped after `k ≥ 1` pending polls: no buffered frame matched, the
+    consumed script prefix contains no matching frame and no end-of-stream, its well-formed
+    frames were appended to the buffer in arrival order, nothing else changed -/
+theorem runWaitFor_start_cancelled (pred : Id → Bool) (k : Nat) (s s' : State) (hk : 1 ≤ k)
+    (h : runWaitFor pred k .start s = (s', .cancelled)) :
+    (∀ x ∈ s.buf, matches_ pred x = false) ∧
+    ∃ c, s.script = c ++ s'.script ∧ (∀ x ∈ msgsOf c, matches_ pred x = false) ∧
+      (∀ e ∈ c, e ≠ Ev.closed) ∧ s'.buf = s.buf ++ (msgsOf c).filter wf ∧ s'.asks = s.asks := by
+  rcases runWaitFor_start_cases pred k s with ⟨hk0, _⟩ | ⟨_, i, hi, hf, e⟩ | ⟨_, hb, e⟩
+  · omega
+  · rw [e] at h; simp at h
+  · have hp := runWaitFor_pulling_pulled pred k s
+    rw [← e, h] at hp
+    obtain ⟨c, h1, h2, h3, h4, h5, _⟩ := hp
+    exact ⟨hb, c, by simpa [tailOf] using h1, h2, h3, h4, h5⟩
+
+theorem runWaitFor_zero (pred : Id → Bool) (ph : Phase) (s : State) :
+    runWaitFor pred 0 ph s = (s, .cancelled) := rfl
+
+/-- reissuing a cancelled `wait_for`: the two futures together behave like one uninterrupted
+    future polled `k + j` times -/
+theorem runWaitFor_reissue (pred : Id → Bool) (k j : Nat) (s s' : State)
+    (h : runWaitFor pred k .start s = (s', .cancelled)) :
+    runWaitFor pred (k + j) .start s = runWaitFor pred j .start s' := by
+  by_cases hk : k = 0
+  · subst hk
+    simp only [runWaitFor_zero, Prod.mk.injEq, and_true] at h
+    subst h
+    simp
+  · have hk1 : 1 ≤ k := by omega
+    obtain ⟨hb, c, _, hc, _, hbuf, _⟩ := runWaitFor_start_cancelled pred k s s' hk1 h
+    rw [runWaitFor_add pred k j .start s s' hk1 h]
+    symm
+    apply runWaitFor_start_miss
+    intro x hx
+    rw [hbuf, List.mem_append, List.mem_filter] at hx
+    rcases hx with hx | hx
+    · exact hb x hx
+    · exact hc x hx.1
+
+/-- `wait_for` reads only `buf` and `script` -/
+theorem runWaitFor_start_asks (pred : Id → Bool) (k : Nat) (s : State) (a : List (Id × Nat)) :
+    runWaitFor pred k .start { s with asks := a } =
+      ({ (runWaitFor pred k .start s).1 with asks := a }, (runWaitFor pred k .start s).2) := by
+  rcases runWaitFor_start_cases pred k s with ⟨hk, e⟩ | ⟨hk, i, hi, hf, e⟩ | ⟨_, hb, e⟩
+  · subst hk; rfl
+  · obtain ⟨k', rfl⟩ : ∃ k', k = k' + 1 := ⟨k - 1, by omega⟩
+    rw [e, runWaitFor_start_hit pred k' { s with asks := a } i hi hf]
+  · rw [e, runWaitFor_start_miss pred k { s with asks := a } hb, runWaitFor_asks]
 
 end SlVerif.Buffered
